@@ -244,8 +244,11 @@ func ruleV7(c *Ctx) {
 			}
 		})
 	}
+	// a helper that a dispatcher calls but that emits only one half of a push/pop pair (forHeader:
+	// ITERPUSH, the caller emits ITERPOP) is not a construct of its own: it is inlined into its callers
+	demoted := map[*ssa.Function]bool{}
 	isRoot := func(f *ssa.Function) bool {
-		return isNodeDispatcher(f) || calledFromDispatcher[f] || selfRec[f]
+		return !demoted[f] && (isNodeDispatcher(f) || calledFromDispatcher[f] || selfRec[f])
 	}
 	// counts of a construct-level function with its private helpers inlined
 	var inl func(f *ssa.Function, onStack map[*ssa.Function]bool) (int, int)
@@ -267,6 +270,13 @@ func ruleV7(c *Ctx) {
 		}
 		return np, nq
 	}
+	for _, fn := range cfuncs {
+		if calledFromDispatcher[fn] && !isNodeDispatcher(fn) && !selfRec[fn] {
+			if np, nq := inl(fn, map[*ssa.Function]bool{}); np != nq {
+				demoted[fn] = true
+			}
+		}
+	}
 	total := 0
 	for _, fn := range cfuncs {
 		if !isRoot(fn) && !(direct[fn].push+direct[fn].pop > 0 && len(callersInPkg(cfuncs, fn)) == 0) {
@@ -287,6 +297,47 @@ func ruleV7(c *Ctx) {
 		} else {
 			c.viol(key, pos, fmt.Sprintf("%d ITERPUSH emission(s) but %d ITERPOP emission(s) in this construct (private helpers inlined): a loop that completes normally leaves its iterator on the frame's iterator stack (the collection stays locked until the function returns) or pops one it did not push", np, nq))
 		}
+	}
+	// path clause: where one function emits both, no path from the ITERPUSH emission to the function's
+	// return avoids the ITERPOP emission (a pop that is conditional, e.g. on a 'caller returns anyway' flag,
+	// leaves the iterator - and the lock it holds - in place while the rest of the function still runs)
+	emitsOp := func(in ssa.Instruction, op int64) bool {
+		call, ok := in.(*ssa.Call)
+		if !ok {
+			return false
+		}
+		cal := call.Call.StaticCallee()
+		if cal == nil || !strings.HasPrefix(cal.Name(), "emit") || len(call.Call.Args) < 2 {
+			return false
+		}
+		for _, a := range call.Call.Args[1:] {
+			if k, ok := constInt(a); ok && k == op {
+				return true
+			}
+			for _, v := range variadicElems(a) {
+				if k, ok := constInt(v); ok && k == op {
+					return true
+				}
+			}
+		}
+		return false
+	}
+	for _, fn := range cfuncs {
+		if direct[fn].push == 0 || direct[fn].pop == 0 {
+			continue
+		}
+		eachInstr(fn, func(in ssa.Instruction) {
+			if in.Parent() != fn || !emitsOp(in, push) {
+				return
+			}
+			key := fnName(fn) + ": ITERPOP on every path after ITERPUSH"
+			leak := pathAvoiding(in, func(x ssa.Instruction) bool { return emitsOp(x, pop) }, func(x ssa.Instruction) bool { _, ok := x.(*ssa.Return); return ok })
+			if leak != nil {
+				c.viol(key, c.P.Pos(in.Pos()), "after emitting ITERPUSH this function can return without having emitted the matching ITERPOP: the compiled loop leaves its iterator on the frame's iterator stack, so the collection stays locked for the rest of the function")
+			} else {
+				c.ok(key, c.P.Pos(in.Pos()), "every path from the ITERPUSH emission to a return emits ITERPOP")
+			}
+		})
 	}
 	if total == 0 {
 		c.anchorFail("no ITERPUSH/ITERPOP emission found in package compile")
